@@ -13,6 +13,9 @@ PLAN = {
     "C03": ["trivia", "corpus"],
     "C04": ["strings", "literals", "corpus"],
     "C05": ["exprparens"],
+    "C08": ["block", "corpus"],
+    "C09": ["blockrange"],
+    "C10": ["layout", "trivia", "corpus"],
     "C06": ["exprparens", "trivia", "corpus"],
     "C07": ["exprparens", "trivia", "corpus"],
 }
@@ -73,12 +76,12 @@ def src_corpus(tier, seed):
     for d, cfg in CORPUS_DIRS:
         files = sorted(glob.glob(os.path.join(vlib.REPO, "tests", d, "*.lua")))
         for f in files:
-            sweep = {"column_width": widths}
+            sweep = {"column_width": widths, "indent_type": ["Tabs", "Spaces"], "line_endings": ["Unix", "Windows"]}
             if tier == "thorough":
-                sweep["indent_type"] = ["Tabs", "Spaces"]
+                sweep["indent_width"] = [2, 3, 4]
             cases.append({
                 "id": "corpus:%s/%s" % (d, os.path.basename(f)), "src_file": f, "cfg": dict(cfg),
-                "sweep": sweep, "want": ["reformat"],
+                "sweep": sweep, "want": ["reformat", "lines"] + (["stmts"] if d == "inputs-ignore" else []),
                 "meta": {"src": "corpus", "dir": d},
             })
     return cases, {"module": "(corpus: tests/inputs*)", "cases": len(cases), "states": 0, "distinct": 0}
@@ -101,6 +104,47 @@ def src_trivia(tier, seed):
         c["want"] = ["reformat", "lines"]
         cases.append(c)
     return cases, st
+
+
+def src_layout(tier, seed):
+    """C10: trivia templates rendered with CRLF / mixed line endings and space / mixed indentation,
+    formatted under every (line_endings, indent_type, indent_width) and two widths."""
+    raw, st = tlc_generate("MC_Trivia", "MC_Trivia_layout_%s.cfg" % tier, "g_layout_" + tier)
+    raw.sort(key=lambda c: json.dumps(c, sort_keys=True))
+    cases = []
+    lays = [("crlf", "space2"), ("mixed", "mixed")] if tier == "quick" else [("crlf", "space2"), ("mixed", "mixed"), ("lf", "space3"), ("crlf", "tab")]
+    for i, c in enumerate(raw):
+        for (eol, ind) in lays:
+            d = json.loads(json.dumps(c))
+            d["id"] = "ly%d:%s:%s" % (i, eol, ind)
+            d["layout"].update({"profile": "spaced", "eol": eol, "indent": ind})
+            d["meta"]["src"] = "Layout"
+            d["sweep"] = {"line_endings": ["Unix", "Windows"], "indent_type": ["Tabs", "Spaces"],
+                          "indent_width": [1, 2, 3, 4, 8] if tier == "quick" else [1, 2, 3, 4, 5, 6, 7, 8, 16],
+                          "column_width": [120, 20] if tier == "quick" else [120, 40, 20, 1]}
+            d["want"] = ["lines"]
+            cases.append(d)
+    return cases, st
+
+
+def _block_cases(cfgname, name, prefix, extra_sweep=None):
+    raw, st = tlc_generate("MC_Block", cfgname, name)
+    raw.sort(key=lambda c: json.dumps(c, sort_keys=True))
+    cases = []
+    for i, c in enumerate(raw):
+        c["id"] = "%s%d" % (prefix, i)
+        c["sweep"] = dict(extra_sweep or {"column_width": [120, 12]})
+        c["want"] = ["stmts", "lines"]
+        cases.append(c)
+    return cases, st
+
+
+def src_block(tier, seed):
+    return _block_cases("MC_Block_%s.cfg" % tier, "g_block_" + tier, "bk")
+
+
+def src_blockrange(tier, seed):
+    return _block_cases("MC_Block_range_%s.cfg" % tier, "g_blockrange_" + tier, "br")
 
 
 def src_strings(tier, seed):
@@ -143,6 +187,9 @@ def src_literals(tier, seed):
 
 
 SOURCES = {
+    "block": src_block,
+    "blockrange": src_blockrange,
+    "layout": src_layout,
     "trivia": src_trivia,
     "strings": src_strings,
     "literals": src_literals,
